@@ -19,6 +19,11 @@ class Abstain(Exception):
     pass
 
 
+class TypeResolutionFailed(Exception):
+    """The type resolver of an abstract type raises the resolver error for this value: the field whose
+    value was being completed is nulled and carries the error (library semantics: no partial lists)."""
+
+
 class Crashed(Exception):
     """The world raises an unexpected exception somewhere in this execution."""
 
@@ -32,6 +37,7 @@ class RefExecutor(object):
         self.introspection = introspection
         self.root = root
         self.error_messages = []  # messages of the world's resolver errors, in model order
+        self.type_failures = []   # paths of fields nulled because a type resolver raised
         self.top_level_order = []
         self.visited = []         # response paths of every field the algorithm resolves
 
@@ -117,7 +123,14 @@ class RefExecutor(object):
         if out[0] == "crash":
             self.crashes.append(path)
             raise Crashed(path)
-        return self.complete(f.type, out[1], fields, path)
+        n_errors = len(self.errors)
+        try:
+            return self.complete(f.type, out[1], fields, path)
+        except TypeResolutionFailed:
+            self.errors.append((path, "resolver"))
+            self.error_messages.append("resolver error at type resolution")
+            self.type_failures.append(path)
+            return None
 
     def complete(self, t, v, fields, path):
         if t[0] == "nonnull":
@@ -134,6 +147,8 @@ class RefExecutor(object):
         if kind in ("scalar", "enum"):
             return serialize_leaf(self.s, name, v)
         assert isinstance(v, Obj), (name, v)
+        if kind in ("interface", "union") and self.world.type_resolution_fails(name, v):
+            raise TypeResolutionFailed(path)
         runtime = v.type
         merged = []
         for fld in fields:
@@ -159,6 +174,15 @@ def reference_result(schema, doc, op, provided_variables, world, root=None):
     except Crashed as e:
         return ("crash", e.args[0], ex)
     return ("ok", data, errors, ex)
+
+
+def drop_under_aborted(paths, executor):
+    """Errors recorded *below* a field that was nulled because a type resolver raised may or may not be
+    reported (they depend on how far the other items had got): both sides are compared without them."""
+    aborted = [tuple(p) for p in getattr(executor, "type_failures", [])]
+    if not aborted:
+        return list(paths)
+    return [p for p in paths if not any(len(p) > len(a) and tuple(p[:len(a)]) == a for a in aborted)]
 
 
 def compare_data(a, b, path=()):
